@@ -1443,6 +1443,16 @@ func main() {
 				s.StateRoot = r.Bytes(32)
 			}
 			w.n.ABI.S = s
+			if bo.By != nil {
+				// the chosen validator may have left the generator list through an intermediate validator-set change
+				still := false
+				for _, a := range w.n.GeneratorAddrs() {
+					still = still || bytes.Equal(a, bo.By.Addr)
+				}
+				if !still {
+					bo.By = nil
+				}
+			}
 			valid := w.n.NextValid(bo)
 			// the unaltered successor through both entry points, then every alteration
 			w.submit("none (valid successor)", cloneBlock(valid), cloneScript(s), true, true)
